@@ -24,6 +24,16 @@ var plans = map[string]*plan{
 	},
 }
 
+// alsoIn adds further build configurations of the same tree in which the same monitor runs;
+// every build is compared with the model on its own (no cross-build comparison is needed), so
+// this is extra reach for defects that need a configuration AND an input class at once.
+func alsoIn(p *plan, cfgs ...string) {
+	for _, c := range cfgs {
+		p.stages = append(p.stages, stage{config: c, optional: true})
+	}
+	p.rule += " The same monitor also runs in the " + strings.Join(cfgs, " and ") + " build(s) of the same working tree, each compared with the model on its own."
+}
+
 func simple(rule string, min int64) *plan {
 	return &plan{stages: []stage{{config: "default"}}, rule: rule, assumptions: commonAssumptions, minEvals: min}
 }
@@ -186,12 +196,12 @@ func compareBuilds(rc *runCfg, pl *plan, m *merged) error {
 // (GOARCH=386) and the optimised build for a newer micro-architecture level (GOAMD64=v3), where
 // both the compiler's code and any level-specific assembly differ.
 func c20Stages() []stage {
-	st := []stage{{config: "default"}, {config: "purego"}, {config: "386"}}
+	st := []stage{{config: "default"}, {config: "purego"}, {config: "386", optional: true}}
 	if hostRunsAMD64v3() {
-		st = append(st, stage{config: "amd64v3"})
+		st = append(st, stage{config: "amd64v3", optional: true})
 	}
 	if hostRunsAMD64v4() {
-		st = append(st, stage{config: "amd64v4", thoroughOnly: true})
+		st = append(st, stage{config: "amd64v4", thoroughOnly: true, optional: true})
 	}
 	return st
 }
@@ -203,5 +213,16 @@ func init() {
 		assumptions: append([]string{"only the configurations this machine can execute are monitored: amd64 default and purego; field/fe_arm64.s cannot be run here"}, commonAssumptions...),
 		minEvals:    1000,
 		custom:      compareBuilds,
+	}
+}
+
+func init() {
+	// field-level monitors: the portable field code (purego) and a 32-bit int/uint (GOARCH=386)
+	for _, p := range []string{"C09", "C10", "C16"} {
+		alsoIn(plans[p], "purego", "386")
+	}
+	// byte-level scalar and point decoders/encoders with a 32-bit int
+	for _, p := range []string{"C04", "C05", "C08"} {
+		alsoIn(plans[p], "386")
 	}
 }
